@@ -90,3 +90,7 @@ Lemma run_peek A (p : P A) i : run (Peek p) i = match run p i with Ok _ a => Ok 
 Proof. reflexivity. Qed.
 Lemma run_alt A (p q : P A) i : run (Alt p q) i = match run p i with Err _ _ => run q i | r => r end.
 Proof. reflexivity. Qed.
+
+Lemma run_vrfy A (p : P A) f i :
+  run (Vrfy p f) i = match run p i with Ok r a => if f a then Ok r a else Err i KVerify | r => r end.
+Proof. reflexivity. Qed.
